@@ -317,11 +317,13 @@ def run(tier: str, col: common.Collector) -> None:
     seed = common.seed()
     tasks: List[Tuple] = []
     glayers = codecgen.grid_layers(tier, seed, per_layer=60)
-    if tier == "quick":
-        glayers = glayers[(seed % 3)::3]
     for i, m in enumerate(glayers):
         tasks.append(("grid", m, tier, seed * 100003 + i))
-    for i, m in enumerate(codeccompose.layers(tier, seed)):
+    comp = codeccompose.layers(tier, seed)
+    if tier == "quick":
+        # the check is cheap: a second, independently seeded set of random compositions
+        comp += codeccompose.layers(tier, seed + 1000)[1:]
+    for i, m in enumerate(comp):
         tasks.append(("compose", m, tier, seed * 100019 + i))
     tasks.append(("compose", prefix_probe_layer(), tier, seed + 9))
     common.pmap(run_layer, tasks, col)
